@@ -411,7 +411,10 @@ func (b *BinaryExpr) SQL() string {
 
 func (u *UnaryExpr) SQL() string {
 	p := exprPrec(u)
-	return string(u.Op) + strOpt(u.Op == OpNot, " ") + paren(p, u.Expr)
+	operand := paren(p, u.Expr)
+	// "-" directly followed by "-" would start a comment.
+	needSpace := u.Op == OpNot || u.Op == OpMinus && strings.HasPrefix(operand, "-")
+	return string(u.Op) + strOpt(needSpace, " ") + operand
 }
 
 func (i *InExpr) SQL() string {
